@@ -215,12 +215,14 @@ def generate_data_encoding(
         for modality_name in modalities.keys():
             if modality_name not in patient_row:
                 warnings.warn(f"Modality {modality_name} not in data. Skipping.")
-                continue
-            diagnosis_encoding = compute_encoding(
-                lnls=lnls,
-                pattern=patient_row[modality_name],
-                base=2,  # observations are always binary!
-            )
+                # a modality without data is unknown for all LNLs
+                diagnosis_encoding = np.ones(shape=2 ** len(lnls), dtype=bool)
+            else:
+                diagnosis_encoding = compute_encoding(
+                    lnls=lnls,
+                    pattern=patient_row[modality_name],
+                    base=2,  # observations are always binary!
+                )
             patient_encoding = np.kron(patient_encoding, diagnosis_encoding)
 
         result[:, i] = patient_encoding
